@@ -602,7 +602,42 @@ func (t *tokenizer) skipBlobHelper() error {
 		return err
 	}
 
-	// https://github.com/amzn/ion-go/issues/115
+	// A clob holds quoted text, in which '}' is a character like any other: skip the
+	// string(s) as strings (https://github.com/amzn/ion-go/issues/115).
+	switch c {
+	case '"':
+		if err := t.skipStringHelper(); err != nil {
+			return err
+		}
+		if c, _, err = t.skipLobWhitespace(); err != nil {
+			return err
+		}
+		if c != '}' {
+			return t.invalidChar(c)
+		}
+
+	case '\'':
+		cs, err := t.peekN(2)
+		if err != nil && err != io.EOF {
+			return err
+		}
+		if len(cs) < 2 || cs[0] != '\'' || cs[1] != '\'' {
+			return t.invalidChar(c)
+		}
+		if err := t.skipN(2); err != nil {
+			return err
+		}
+		if err := t.skipLongStringHelper(t.ensureNoCommentsHandler); err != nil {
+			return err
+		}
+		if c, _, err = t.skipLobWhitespace(); err != nil {
+			return err
+		}
+		if c != '}' {
+			return t.invalidChar(c)
+		}
+	}
+
 	for c != '}' {
 		c, _, err = t.skipLobWhitespace()
 		if err != nil {
